@@ -59,5 +59,7 @@ SEEDED = [
     ("C16-11", "C16-ORDER"),
     ("C16-12", "C16-SEP"),
     ("C16-13", "C16-ROUTE"),
+    ("C16-14", "C16-POST"),
+    ("C16-15", "C16-BYTES"),
 ]
 MUTANTS = list(MUTANTS) + [_P("seed-" + sid, _os.path.join(_SEEDS, sid, "patch.diff"), rule) for sid, rule in SEEDED if _os.path.exists(_os.path.join(_SEEDS, sid, "patch.diff"))]
